@@ -76,6 +76,7 @@ def build_data(keys, lens, p, b, S, extra=None):
 def run_both(tool, d, o, cap=None, use_spec=False):
     """Run the asyncstdlib tool and the stdlib tool to the end; compare."""
     Wa, Ws = World("a"), World("s")
+    Wa.aclose_ret = P("aclose_ret")
     D = Driver(Wa, sync_only=True)
     cap = total_out(tool, d) if cap is None else cap
     try:
@@ -117,6 +118,7 @@ def h_tool(k0: int, k1: int, k2: int, k3: int, k4: int, k5: int, k6: int, k7: in
     lens = [n0, n1, n2, n3]
     d = build_data(keys, lens, [p0, p1, p2], [b0, b1, b2], S, P("form"))
     o = Opts(fl=(P("fls") or [P("fl", "agen")] * 4), ffl=P("ffl", "def"))
+    o.raising = P("raising", False)
     r = run_both(tool, d, o, use_spec=P("spec", False))
     if r is None:
         return finish(False, False)
@@ -438,6 +440,14 @@ def jobs(tier):
     for t in ("map", "filter", "takewhile", "dropwhile", "filterfalse", "accumulate_f", "starmap", "iter_sentinel"):
         add("h_tool", T, tool=t, S=1, N=3, ffl="defaw")
     add("h_merge", T, S=2, N=2, ffl="defaw", usekey=True)
+    # falsy / value-comparing callable objects; callables that raise for some items over sources whose aclose() returns something truthy
+    for t in ("map", "filter", "takewhile", "dropwhile", "filterfalse", "accumulate_f", "starmap", "iter_sentinel"):
+        add("h_tool", T, tool=t, S=1, N=3, ffl="fobj")
+        add("h_tool", T, tool=t, S=1, N=2, ffl="dcobj")
+        add("h_tool", T, tool=t, S=1, N=2, fl="acls", aclose_ret=True, raising=True)
+    add("h_merge", T, S=2, N=2, ffl="fobj", usekey=True)
+    add("h_tool", T, tool="zip_longest_shared", S=1, N=4)
+    add("h_tool", T, tool="zip_longest_shared3", S=1, N=5)
     add("h_accumulate_add", T, N=5, fl="agen")
     add("h_accumulate_add", T, N=3, fl="agen", kind="list")
     for t, S_ in (("zip", 2), ("zip_longest", 2), ("chain", 2), ("islice", 1), ("batched", 1), ("pairwise", 1), ("enumerate0", 1), ("cycle", 1), ("compress", 2), ("filter_none", 1), ("filterfalse_none", 1), ("iter_sentinel", 1)):
